@@ -453,9 +453,9 @@ Proof.
   intros x Hx. apply H2. apply in_or_app. left. exact Hx.
 Qed.
 
-(* outside F04c / F20j: the signature has pairwise distinct names and contains every declared parameter and the body *)
+(* outside F04c / F04d: the signature has pairwise distinct names and contains every declared parameter and the body *)
 Theorem params_partial : forall names body vars,
-  guard_F04c names = true -> guard_F20j names body = true ->
+  guard_F04c names = true -> guard_F04d names body = true ->
   NoDup (params names body vars)
   /\ incl (map method_name names) (params names body vars)
   /\ (forall b, body = Some b -> In b (params names body vars)).
@@ -467,7 +467,7 @@ Proof.
                /\ incl ps (match body with Some b => if mem_str b ps then ps else ps ++ [b] | None => ps end)
                /\ forall b, body = Some b -> In b (match body with Some b => if mem_str b ps then ps else ps ++ [b] | None => ps end)).
   { destruct body as [b|]; [|split; [exact G1 | split; [apply incl_refl | discriminate]]].
-    unfold guard_F20j in G2. fold ps in G2. apply negb_true_iff in G2. rewrite G2.
+    unfold guard_F04d in G2. fold ps in G2. apply negb_true_iff in G2. rewrite G2.
     split; [|split].
     - apply Permutation_NoDup with (l := b :: ps); [apply Permutation_cons_append|].
       constructor; [|exact G1]. intro Hin. apply mem_str_In in Hin. congruence.
@@ -483,7 +483,7 @@ Definition w_F04c : list str := [[117;115;101;114;45;105;100]; [117;115;101;114;
 Definition s_body : str := [98;111;100;121].
 Lemma refuted_F04c : guard_F04c w_F04c = false /\ nodupb (params w_F04c None []) = false.
 Proof. split; vm_compute; reflexivity. Qed.
-Lemma refuted_F20j : guard_F04c [s_body] = true /\ guard_F20j [s_body] (Some s_body) = false
+Lemma refuted_F04d : guard_F04c [s_body] = true /\ guard_F04d [s_body] (Some s_body) = false
   /\ length (params [s_body] (Some s_body) []) = 1%nat.
 Proof. repeat split; vm_compute; reflexivity. Qed.
 
@@ -682,3 +682,52 @@ Qed.
 Definition w_ops_ok : list str := [[102;111;111]; [70;111;111]; [102;111;111]; [99;108;97;115;115]; [99;108;97;115;115]].
 Lemma guard_F07a_nonvacuous : guard_F07a w_ops_ok = true /\ dedup_ops w_ops_ok <> w_ops_ok.
 Proof. split; vm_compute; [reflexivity | discriminate]. Qed.
+
+(* ================================================================= component schemas in the loader *)
+Lemma build_keys_go_spec : forall raw keys i,
+  (forall n, In n raw -> class_name (class_name n) = class_name n) ->
+  NoDup (map class_name raw) ->
+  (forall n, In n raw -> ~ In n (map fst keys) /\ ~ In (class_name n) (map fst keys)) ->
+  build_keys_go keys i raw = keys ++ combine (map class_name raw) (seq i (length raw)).
+Proof.
+  induction raw as [|n r IH]; intros keys i Hid Hnd Hfresh; [simpl; rewrite app_nil_r; reflexivity|].
+  cbn [build_keys_go]. destruct (Hfresh n (or_introl eq_refl)) as [H1 H2].
+  assert (E1 : mem_str n (map fst keys) = false) by (destruct (mem_str n (map fst keys)) eqn:E; [apply mem_str_In in E; contradiction | reflexivity]).
+  assert (E2 : mem_str (class_name n) (map fst keys) = false)
+    by (destruct (mem_str (class_name n) (map fst keys)) eqn:E; [apply mem_str_In in E; contradiction | reflexivity]).
+  rewrite E1, E2. cbn [orb]. rewrite (Hid n (or_introl eq_refl)), E2.
+  inversion Hnd as [|? ? Hnotin Hnd']; subst.
+  rewrite IH.
+  - rewrite <- app_assoc. reflexivity.
+  - intros n' Hn'. apply Hid. right. exact Hn'.
+  - exact Hnd'.
+  - intros n' Hn'. rewrite map_app. simpl map. destruct (Hfresh n' (or_intror Hn')) as [F1 F2].
+    split; intro Hin; apply in_app_or in Hin; destruct Hin as [Hin|[Hin|[]]]; try contradiction.
+    + apply Hnotin. rewrite <- (Hid n (or_introl eq_refl)). rewrite Hin. apply in_map. exact Hn'.
+    + apply Hnotin. rewrite Hin. apply in_map. exact Hn'.
+Qed.
+
+(* F20k / F20m excluded: every component schema is registered, under its class name, holding its own content *)
+Theorem build_keys_partial : forall raw, guard_F20k raw = true -> guard_F20m raw = true ->
+  build_keys raw = Some (combine (map class_name raw) (seq 0 (length raw))).
+Proof.
+  intros raw Gk Gm. unfold build_keys. cbv zeta.
+  assert (Hid : forall n, In n raw -> class_name (class_name n) = class_name n).
+  { intros n Hn. unfold guard_F20k in Gk. rewrite forallb_forall in Gk. apply str_eqb_eq, Gk, Hn. }
+  apply nodupb_NoDup in Gm.
+  rewrite (build_keys_go_spec raw [] 0 Hid Gm) by (intros n _; split; intros []).
+  cbn [app]. rewrite map_fst_combine by (rewrite map_length, seq_length; reflexivity).
+  replace (forallb _ raw) with true; [reflexivity|]. symmetry. apply forallb_forall. intros n Hn.
+  apply orb_true_iff. right. apply mem_str_In. apply in_map. exact Hn.
+Qed.
+
+Definition w_a_b : str := [97;95;98].                                   (* a_b *)
+Definition w_foo_bar : str := [102;111;111;95;98;97;114].               (* foo_bar *)
+Definition w_FooBar : str := [70;111;111;66;97;114].                    (* FooBar *)
+Lemma refuted_F20k : guard_F20k [w_a_b] = false /\ guard_F20m [w_a_b] = true /\ build_keys [w_a_b] = None.
+Proof. repeat split; vm_compute; reflexivity. Qed.
+Lemma refuted_F20m : guard_F20k [w_foo_bar; w_FooBar] = true /\ guard_F20m [w_foo_bar; w_FooBar] = false
+  /\ build_keys [w_foo_bar; w_FooBar] = Some [(w_FooBar, 0%nat)].
+Proof. repeat split; vm_compute; reflexivity. Qed.
+Lemma schemas_guard_nonvacuous : guard_F20k [w_foo_bar; w_none; w_1st] = true /\ guard_F20m [w_foo_bar; w_none; w_1st] = true.
+Proof. split; vm_compute; reflexivity. Qed.
